@@ -105,7 +105,42 @@ func Zero(t *Type) Value {
 	panic("Zero")
 }
 
-// ToBytes serialises v (of type t) into t.Size bytes; padding is zero.
+// AccessSize is the number of bytes a load / store of a value of type t touches:
+// integers occupy ceil(bits/8) bytes and aggregates are accessed member-wise, so
+// tail padding is not part of the access (LLVM LangRef; for Go types this only
+// differs from Size by the tail padding of structs).
+func AccessSize(t *Type) int {
+	switch t.Kind {
+	case KBool:
+		return 1
+	case KInt:
+		return (t.Bits + 7) / 8
+	case KStruct:
+		n := 0
+		for _, f := range t.Fields {
+			if a := AccessSize(f.T); a > 0 && f.Off+a > n {
+				n = f.Off + a
+			}
+		}
+		return n
+	case KArray:
+		if t.N == 0 {
+			return 0
+		}
+		return (t.N-1)*t.Elem.Size + AccessSize(t.Elem)
+	}
+	return t.Size
+}
+
+func clampEnd(end, n int) int {
+	if end > n {
+		return n
+	}
+	return end
+}
+
+// ToBytes serialises v (of type t) into AccessSize(t) .. t.Size bytes (as many
+// as out holds); padding is zero.
 func ToBytes(t *Type, v Value, out []*smt.Term) {
 	switch t.Kind {
 	case KBool:
@@ -116,23 +151,26 @@ func ToBytes(t *Type, v Value, out []*smt.Term) {
 			panic(fmt.Sprintf("ToBytes: %s got width %d", t.Name, x.W))
 		}
 		if t.Bits%8 != 0 {
-			x = smt.ZExt(x, t.Size*8)
+			x = smt.ZExt(x, (t.Bits+7)/8*8)
 		}
 		copy(out, BytesFromInt(x))
 	case KStruct:
 		a := v.(Agg)
-		for i := range out[:t.Size] {
+		for i := range out[:clampEnd(t.Size, len(out))] {
 			if out[i] == nil {
 				out[i] = zeroByte
 			}
 		}
 		for i, f := range t.Fields {
-			ToBytes(f.T, a[i], out[f.Off:f.Off+f.T.Size])
+			if f.T.Size == 0 {
+				continue
+			}
+			ToBytes(f.T, a[i], out[f.Off:clampEnd(f.Off+f.T.Size, len(out))])
 		}
 	case KArray:
 		a := v.(Agg)
 		for i := 0; i < t.N; i++ {
-			ToBytes(t.Elem, a[i], out[i*t.Elem.Size:(i+1)*t.Elem.Size])
+			ToBytes(t.Elem, a[i], out[i*t.Elem.Size:clampEnd((i+1)*t.Elem.Size, len(out))])
 		}
 	}
 }
@@ -143,7 +181,7 @@ func FromBytes(t *Type, bs []*smt.Term) Value {
 	case KBool:
 		return smt.Ne(bs[0], smt.Const(8, 0))
 	case KInt:
-		x := IntFromBytes(bs[:t.Size])
+		x := IntFromBytes(bs[:(t.Bits+7)/8])
 		if t.Bits%8 != 0 {
 			x = smt.Extract(x, t.Bits-1, 0)
 		}
@@ -151,13 +189,17 @@ func FromBytes(t *Type, bs []*smt.Term) Value {
 	case KStruct:
 		a := make(Agg, len(t.Fields))
 		for i, f := range t.Fields {
-			a[i] = FromBytes(f.T, bs[f.Off:f.Off+f.T.Size])
+			if f.T.Size == 0 {
+				a[i] = Zero(f.T)
+				continue
+			}
+			a[i] = FromBytes(f.T, bs[f.Off:clampEnd(f.Off+f.T.Size, len(bs))])
 		}
 		return a
 	case KArray:
 		a := make(Agg, t.N)
 		for i := 0; i < t.N; i++ {
-			a[i] = FromBytes(t.Elem, bs[i*t.Elem.Size:(i+1)*t.Elem.Size])
+			a[i] = FromBytes(t.Elem, bs[i*t.Elem.Size:clampEnd((i+1)*t.Elem.Size, len(bs))])
 		}
 		return a
 	}
@@ -183,7 +225,7 @@ func (mm *Mem) Load(p *smt.Term, t *Type, h *AccessHooks, what string) Value {
 	var res Value
 	for i := len(ts) - 1; i >= 0; i-- {
 		tg := ts[i]
-		v := FromBytes(t, mm.LoadBytes(tg.A, tg.Off, t.Size, what))
+		v := FromBytes(t, mm.LoadBytes(tg.A, tg.Off, AccessSize(t), what))
 		if res == nil {
 			res = v
 		} else {
@@ -198,7 +240,7 @@ func (mm *Mem) Store(p *smt.Term, t *Type, v Value, h *AccessHooks, what string)
 	if t.Size == 0 {
 		return
 	}
-	bs := make([]*smt.Term, t.Size)
+	bs := make([]*smt.Term, AccessSize(t))
 	ToBytes(t, v, bs)
 	mm.StoreRaw(p, bs, h, what)
 }
